@@ -302,9 +302,15 @@ class AcceptRun:
     ("tmr", k) -- and ``obs()`` returns the observation vector that coq/model/M_Accept.v::aobs defines.
     """
 
-    def __init__(self, transport_mod: Any, sites: dict[int, int], idle: int | None, maxconn: int | None):
+    def __init__(self, transport_mod: Any, sites: dict[int, int] | None, idle: int | None, maxconn: int | None, final_range: tuple[int, int] | None = None):
+        """sites = None: oracle-only mode (the loop's shape is not the modelled one): no pc observation, the break is
+        detected by the acceptor entering the `finally` block (final_range = its line range)."""
         self.mod = transport_mod
         self.sites = sites
+        if final_range is None and sites is not None:
+            lo = min(ln for ln, c in sites.items() if c == 5)
+            final_range = (lo, lo)
+        self.final_range = final_range
         self.idle = idle
         self.sched = Sched()
         self.timers: list[_STimer] = []
@@ -331,7 +337,8 @@ class AcceptRun:
         self.sched.resume(self.acceptor)
         self._check_errors()
         self.loop_start = None if idle is not None else 0
-        self.obs()  # primes the cache of the loop's variables
+        if sites is not None:
+            self.obs()  # primes the cache of the loop's variables
 
     # -- bookkeeping --------------------------------------------------------------------------------
     def fn_seen(self, fn: Any) -> None:
@@ -392,6 +399,14 @@ class AcceptRun:
             raise HarnessError(f"cannot observe variable {name} of the accept loop")
         return self._cell(name)
 
+    def _in_final(self) -> bool:
+        if self.acceptor.done:
+            return True
+        f = self._frame()
+        if f is None or self.final_range is None:
+            raise HarnessError("cannot tell whether the acceptor left the loop")
+        return self.final_range[0] <= f.f_lineno <= self.final_range[1]
+
     def pc(self) -> int:
         if self.acceptor.done:
             return 6
@@ -415,12 +430,12 @@ class AcceptRun:
             self.sock.pending += 1
         elif kind == "acc":
             if not self.acceptor.done:
-                before = self.pc()
-                if before == 0:
+                if self.sites is not None and self.pc() == 0:
                     self.loop_start = self.sched.clock
                     self.zero_at = self.sched.clock
+                was_final = self._in_final()
                 self.sched.resume(self.acceptor)
-                if before == 4 and (self.acceptor.done or self.pc() == 5) and self.break_info is None:
+                if not was_final and self._in_final() and not self.oserr and self.break_info is None:
                     # the loop just broke on shutdown_requested: evaluate the property's own predicate here
                     timeout = self.idle if self.accepted > 0 else max(self.idle or 0, 60)
                     self.break_info = {
@@ -432,7 +447,7 @@ class AcceptRun:
                         "timeout_that_applies": timeout,
                     }
         elif kind == "accerr":
-            if not self.acceptor.done and self.pc() == 1:
+            if not self.acceptor.done and self.acceptor.label == "accept":
                 self.sock.next = "oserror"
                 self.sched.resume(self.acceptor)
         elif kind == "hnd":
@@ -483,14 +498,15 @@ class AcceptRun:
         return out
 
 
-def run_accept(transport_mod: Any, sites: dict[int, int], idle: int | None, maxconn: int | None, schedule: list[tuple[Any, ...]]) -> tuple[list[list[int]], dict[str, Any] | None]:
-    """-> (observation after every step, property snapshot at the idle break or None)."""
-    run = AcceptRun(transport_mod, sites, idle, maxconn)
+def run_accept(transport_mod: Any, sites: dict[int, int] | None, idle: int | None, maxconn: int | None, schedule: list[tuple[Any, ...]], final_range: tuple[int, int] | None = None) -> tuple[list[list[int]], dict[str, Any] | None]:
+    """-> (observation after every step [empty in oracle-only mode], property snapshot at the idle break or None)."""
+    run = AcceptRun(transport_mod, sites, idle, maxconn, final_range)
     try:
         trace = []
         for a in schedule:
             run.step(a)
-            trace.append(run.obs())
+            if sites is not None:
+                trace.append(run.obs())
         return trace, run.break_info
     finally:
         run.close()
